@@ -103,10 +103,71 @@ class C03(XsProp):
     def classify(self, line):
         return line.split(' ')[0] + (' tree' if ' clone | ' in line and 'pool' not in line else '')
 
+    @staticmethod
+    def pool_predicate(case, out):
+        """handle pool, on the implementation's own outputs: after every operation each handle other than the consumed one denotes
+        the bits it denoted, and the new handle denotes what the operation means on bit sequences (so it cannot depend on who
+        else owns the buffer).  Returns None or a description of the first failure."""
+        ops = [o for o in case.split(' ', 1)[1].split(';') if o]
+        outs = out.split(' | ')
+        if len(outs) != len(ops):
+            return None
+        prev = []
+        for k, (op, o) in enumerate(zip(ops, outs)):
+            cur = [] if o == '.' else ['' if x == '-' else x for x in o.split(',')]
+            kind, f = op[0], op[1:].split(':')
+            live = len(prev)
+            exp_rest, exp_new = list(prev), None       # expected survivors (in order), predicate on the new handle
+            why = None
+            if kind == 'n':
+                if len(cur) != live + 1: why = 'new did not add one handle'
+                exp_new = lambda r: True
+            elif kind == 'c' and int(f[0]) < live:
+                exp_new = lambda r, v=prev[int(f[0])]: r == v
+            elif kind == 'd' and int(f[0]) < live:
+                del exp_rest[int(f[0])]
+            elif kind == 's' and int(f[0]) < live:
+                if len(cur) == live + 1:
+                    n = int(f[2]) - int(f[1])
+                    exp_new = lambda r, v=prev[int(f[0])], n=n: len(r) == n and r in v
+            elif kind == 't' and int(f[0]) < live:
+                v = exp_rest.pop(int(f[0])); exp_new = lambda r, v=v: r == v
+            elif kind == 'a' and int(f[0]) < live and int(f[1]) < live and f[0] != f[1]:
+                v = prev[int(f[0])] + prev[int(f[1])]; exp_rest.pop(int(f[0])); exp_new = lambda r, v=v: r == v
+            elif kind == 'v' and int(f[0]) < live:
+                v = ''.join('1' if b == '0' else '0' for b in exp_rest.pop(int(f[0]))); exp_new = lambda r, v=v: r == v
+            elif kind == 'i' and int(f[0]) < live and int(f[2]) < live and f[0] != f[2]:
+                if len(cur) == live:      # either refused (nothing changes) or done (one consumed, one new)
+                    a, b = prev[int(f[0])], prev[int(f[2])]
+                    if cur != prev:
+                        exp_rest.pop(int(f[0]))
+                        exp_new = lambda r, a=a, b=b: any(r == a[:q] + b + a[q:] for q in range(len(a) + 1))
+            if why is None:
+                got_rest = cur[:len(exp_rest)]
+                if got_rest != exp_rest:
+                    why = 'a handle that was not consumed denotes other bits (or disappeared): before %s, after %s' % (prev, cur)
+                elif exp_new is not None:
+                    if len(cur) != len(exp_rest) + 1:
+                        why = 'expected exactly one new handle: before %s, after %s' % (prev, cur)
+                    elif not exp_new(cur[-1]):
+                        why = 'the new handle does not denote what `%s` means on the operands\' bits: before %s, after %s' % (op, prev, cur)
+                elif len(cur) != len(exp_rest):
+                    why = 'unexpected handle: before %s, after %s' % (prev, cur)
+            if why:
+                return 'operation %d (%s): %s' % (k, op, why)
+            prev = cur
+        return None
+
     def group_check(self, cases, impl):
         fails, samples = [], []
         n = muts = 0
         for c, o in zip(cases, impl):
+            if c.startswith('pool ') and 'PANIC' not in o and 'CRASH' not in o:
+                n += 1
+                bad = self.pool_predicate(c, o)
+                if bad:
+                    fails.append(('case: %s\nresult: %s' % (c, o), 'handle pool: ' + bad))
+                continue
             if not c.startswith('xs') or 'PANIC' in o:
                 continue
             st = c.split(' | ')
